@@ -10,5 +10,6 @@ CONSTANTS
   Groups <- G_all
   MaxTok = 5
   FxAll = TRUE
+  Shared = FALSE
 INVARIANTS Refines
 CHECK_DEADLOCK FALSE
